@@ -108,3 +108,22 @@ Theorem C25_distance_refl_refuted :
   distance g_ex 30%N (TUnion [TTuple [t_int]; TTuple [t_str]]) (TUnion [TTuple [t_int]; TTuple [t_str]]) = None.
 Proof. exact distance_refl_refuted. Qed.
 Print Assumptions C25_distance_refl_refuted.
+
+(* --- the set-valued queries (get_subclasses, get_superclasses, get_type_outside_of) are functions
+   of is_subclass on the same graph; together with the purity of every query (the model's queries
+   are Gallina functions of the graph: no sequence of queries can change a later answer; for the
+   memoising implementation see C26_queries_leave_answers_unchanged) *)
+Theorem C25_subclasses_spec : forall g u c d,
+  In d (subclasses_in g u c) <-> In d u /\ subcls g d c = true.
+Proof. exact subclasses_in_spec. Qed.
+Print Assumptions C25_subclasses_spec.
+
+Theorem C25_superclasses_spec : forall g u c d,
+  In d (superclasses_in g u c) <-> In d u /\ subcls g c d = true.
+Proof. exact superclasses_in_spec. Qed.
+Print Assumptions C25_superclasses_spec.
+
+Theorem C25_outside_spec : forall g u ks d,
+  In d (outside_in g u ks) <-> In d u /\ forall k, In k ks -> subcls g d k = false.
+Proof. exact outside_in_spec. Qed.
+Print Assumptions C25_outside_spec.
